@@ -11,7 +11,8 @@
 //! <expect> = (plain xHEX) | (plainonly xHEX) | (none).  <orc> is only read by the model (answers of flate2 / weezl).
 //!
 //! Oracle mode (`c09 --oracle`): one query per line, `(f xIN)` zlib-decode, `(l0 xIN)` / `(l1 xIN)` LZW decode
-//! without / with early change, `(z xIN)` zlib-encode at best compression; prints `xOUT`.  The calls repeat the
+//! without / with early change, `(z xIN)` zlib-encode at best compression, `(e0 xIN)` / `(e1 xIN)` LZW encode with
+//! weezl's own encoder without / with early change (a second, independent producer of LZW streams); prints `xOUT`.  The calls repeat the
 //! call protocol of lopdf's wrappers so that partial output on damaged data is the same.  The generator uses
 //! it for answers it cannot compute itself (flate2's compressed bytes, damaged streams).
 use lvh::conv::*;
@@ -474,6 +475,16 @@ fn oracle() {
                 };
                 let mut o = vec![];
                 let _ = dec.into_stream(&mut o).decode_all(input.as_slice());
+                o
+            }
+            Some(t @ "e0") | Some(t @ "e1") => {
+                let mut enc = if t == "e1" {
+                    weezl::encode::Encoder::with_tiff_size_switch(weezl::BitOrder::Msb, 8)
+                } else {
+                    weezl::encode::Encoder::new(weezl::BitOrder::Msb, 8)
+                };
+                let mut o = vec![];
+                let _ = enc.into_stream(&mut o).encode_all(input.as_slice());
                 o
             }
             Some("z") => {
